@@ -17,11 +17,14 @@ def main():
     for i, a in enumerate(sys.argv):
         if a == "--checks": checks = sys.argv[i + 1].split(",")
         if a == "--tier": tier = sys.argv[i + 1]
-    src = f"/tmp/seed/{pid}/out"
+    rnd = ""
+    for i, a in enumerate(sys.argv):
+        if a == "--round": rnd = sys.argv[i + 1]
+    src = f"/tmp/seed{rnd if rnd not in ('', '1') else ''}/{pid}/out"
     patch, demo = f"{src}/patch_{x}.diff", f"{src}/demo_{x}.rs"
     meta_all = json.load(open(f"{src}/meta.json")) if os.path.exists(f"{src}/meta.json") else {"changes": []}
     meta = next((c for c in meta_all.get("changes", []) if c.get("id") == x), {})
-    wt = f"/tmp/seedverify/{pid}{x}"
+    wt = f"/tmp/seedverify/{pid}{x}"  # scratch worktree, removed below
     env = dict(os.environ); env["CARGO_TARGET_DIR"] = f"/tmp/seedverify/target-{pid}{x}"; env["CARGO_NET_OFFLINE"] = "true"
     shutil.rmtree(wt, ignore_errors=True)
     sh(["git", "-C", "/repo", "worktree", "prune"])
@@ -64,11 +67,19 @@ def main():
             rc, out = sh(["git", "-C", "/repo", "status", "--porcelain"])
             assert out.strip() == "", out
     res["detected"] = any(v["exit"] == 1 for v in res["detection"].values())
-    dst = f"{ROOT}/seeded/{pid}{x}"
+    dst = f"{ROOT}/seeded/{pid}{x}" + (f"-r{rnd}" if rnd not in ("", "1") else "")
+    res["round"] = int(rnd) if rnd else 1
     if confirmed:
+        old = None
+        if os.path.exists(f"{dst}/meta.json"):
+            try: old = json.load(open(f"{dst}/meta.json"))
+            except Exception: old = None
+        if old is not None and (not old.get("detected") or old.get("history")):
+            res["history"] = old.get("history") or ("first evaluation (quick tier, monitors as they were before this seed was seen): MISSED " + json.dumps({k: v["exit"] for k, v in old.get("detection", {}).items()}) + "; re-evaluated after the strengthening described in DESIGN.md section 10")
         os.makedirs(dst, exist_ok=True)
         shutil.copy(patch, f"{dst}/patch.diff"); shutil.copy(demo, f"{dst}/demo.rs")
         res["why_tests_pass"] = meta.get("why_tests_pass")
+        res["why_random_testing_may_miss_it"] = meta.get("why_random_testing_may_miss_it")
         json.dump(res, open(f"{dst}/meta.json", "w"), indent=1)
     print(json.dumps(res, indent=1))
 
